@@ -13,6 +13,7 @@ import Proofs.RefactorRemoveOutput
 import Proofs.RefactorGraphIn
 import Proofs.RefactorGraphCall
 import Proofs.RefactorGraphOut
+import Proofs.RefactorGraphRem
 
 namespace Props.C19
 open Martian.Refactor
@@ -186,6 +187,23 @@ def exTi : TypeInfo :=
   ⟨[], [("S", [("a", ⟨"int", 0, 0⟩)]), ("T", [("a", ⟨"int", 0, 0⟩)]), ("P", [("a", ⟨"int", 0, 0⟩)])],
        [("S", [("o", ⟨"int", 0, 0⟩)]), ("T", [("o", ⟨"int", 0, 0⟩)]), ("P", [("r", ⟨"int", 0, 0⟩)])]⟩
 
+/-- **rename_rename_id_typed.**  The round trip `x → y → x` on the program
+together with its type table (struct definitions and the typed signatures of all
+callables): both come back syntactically, for every `y` that is fresh for `x`
+and names no signature.  (Uses of a callable's name as a parameter TYPE are not
+rewritten by the edit — known finding KF2 — and are therefore untouched in both
+directions.) -/
+theorem rename_rename_id_typed (p : Program) (ti : TypeInfo) (x y : String)
+    (hwf : WF p = true) (hfresh : FreshFor x y p = true)
+    (hi : y ∉ ti.ins.map (·.1)) (ho : y ∉ ti.outs.map (·.1)) :
+    renameCallable y x (renameCallable x y p) = p
+    ∧ (ti.renameCallable x y).renameCallable y x = ti :=
+  ⟨Proofs.Refactor.rename_rename_id p x y hwf hfresh,
+   Proofs.RefactorGraph.typeInfo_rename_roundtrip x y ti hi ho⟩
+
+example : "Z" ∉ exTi.ins.map (·.1) ∧ "Z" ∉ exTi.outs.map (·.1)
+    ∧ exTi.renameCallable "S" "Z" ≠ exTi := by decide
+
 /-- **rename_input_graph.**  Renaming input `a` of callable `x` to a fresh name
 `b` leaves the resolved call graph unchanged except that every node of a call
 of `x` carries its resolved input under the key `b` instead of `a`: the same
@@ -272,5 +290,51 @@ theorem rename_output_whole_call_breaks :
     RenOutOK "S" "o" "z" TypeInfo.empty prog = false
     ∧ deepGraph (TypeInfo.empty.renameOutput "S" "o" "z") (renameOutput "S" "o" "z" prog)
         ≠ (deepGraph TypeInfo.empty prog).map (renNodeOut "S" "o" "z") := by decide
+
+/-- **remove_input_graph** (the deep form of `remove_input_only`).  Removing input
+`q` of callable `x` (the parameter and the bindings named `q` of the calls of
+`x`) when nothing inside `x` refers to `self.q` leaves the resolved call graph
+unchanged except that the nodes of calls of `x` lose the key `q`: every
+remaining input of every call, at every depth of inlining, resolves to the same
+stage output / literal; outputs and retained references are unchanged. -/
+theorem remove_input_graph (x q : String) (ti : TypeInfo) (p : Program)
+    (hok : RemInOK x q p = true) :
+    deepGraph (ti.removeInput x q) (removeInputOne x q p) = (deepGraph ti p).map (remNodeIn x q) := by
+  exact Proofs.RefactorGraph.remove_input_graph x q ti p hok
+
+/-- **remove_input_closure_graph (partial).**  The whole edit `removeInput x q`
+(the parameter plus the cascade of pipeline inputs that nothing binds any more,
+as computed by `removeInputClosure`; the same closure is what the remove-unused
+loop applies after deleting calls / outputs): the nodes lose exactly the removed
+keys, every remaining resolved input is unchanged.
+PARTIAL: the side condition `RemInsOK` — each removed pipeline input is
+unreferenced inside its pipeline at the moment it is removed — is a decidable
+hypothesis (evaluated by the harness on every real instance), not derived from
+the closure's own analysis `leftoverInputs` (which decides it on the unedited
+program, one parameter at a time; known finding KF5 documents where that
+analysis is imprecise).  The deep-graph statements for deleting an unused call
+and for removing an unreferenced output (the other two steps of the
+remove-unused fixed point) are not proved; their one-level forms are
+`remove_unused_preserves_partial` and `remove_output_unused`, and the real call
+graph before/after is compared by the harness on every such edit. -/
+theorem remove_input_closure_graph_partial (x q : String) (ti : TypeInfo) (p : Program)
+    (hx : (p.find? x).isSome = true)
+    (hok : RemInsOK (removeInputClosure p (closureFuel p) [(x, q)] []) p = true) :
+    deepGraph (ti.removeInputs (removeInputClosure p (closureFuel p) [(x, q)] [])) (removeInput x q p)
+      = (removeInputClosure p (closureFuel p) [(x, q)] []).foldl
+          (fun g xq => g.map (remNodeIn xq.1 xq.2)) (deepGraph ti p) := by
+  have : removeInput x q p = removeInputs (removeInputClosure p (closureFuel p) [(x, q)] []) p := by
+    unfold removeInput
+    cases h : p.find? x with
+    | none => simp [h] at hx
+    | some _ => rfl
+  rw [this]
+  exact Proofs.RefactorGraph.remove_inputs_graph _ ti p hok
+
+/-- non-vacuity: removing `S.a` cascades to the pipeline input `P.a` (and the
+top-level binding); both steps satisfy the side condition; the graph changes. -/
+example : removeInputClosure exProg (closureFuel exProg) [("S", "a")] [] = [("S", "a"), ("P", "a")]
+    ∧ RemInsOK [("S", "a"), ("P", "a")] exProg = true
+    ∧ (deepGraph exTi exProg).map (remNodeIn "S" "a") ≠ deepGraph exTi exProg := by decide
 
 end Props.C19
